@@ -130,7 +130,9 @@ def make(seed):
                 cm["table"].append("%s %s %s%s%s" % (ep, e, r.choice(tg), r.choice(["", "", guard()]), acts()))
                 pm["table"].append("%s %s %s:%s%s%s" % (r.choice(srcs), e, cname, ep, guard(), acts()))
         outs = sorted(set(p.split()[2] for p in pm["table"] if p.split()[0] == cname and p.split()[2] not in (cname, "-") and "." not in p.split()[2] and ":" not in p.split()[2]))
-        if outs and r.random() < 0.3:
+        # no exit points in a submachine with history: an exit point left active (outer guard false) would be restored on re-entry and
+        # forward its event again - a machine that can loop for ever by design
+        if outs and cm.get("history", {"kind": "none"})["kind"] == "none" and r.random() < 0.4:
             for k in range(r.randint(1, 2)):
                 z = r.randrange(len(cm["init"]))
                 sr = sorted(set(p.split()[0] for p in cm["table"] if p.split()[0].startswith("%s%d" % (pre, z)) and p.split()[0] not in names))
